@@ -5,43 +5,69 @@
 (* An object is a record of fields; every field points to a mutable cell   *)
 (* of a heap; a cell has a content version.  Derived values are memoised   *)
 (* per object (a cache stamped with the content it was computed from).     *)
-(* Copy(kind) creates the second object: for every field the copy either   *)
-(* gets a new cell with equal content (deep), shares the original's cell   *)
-(* (shallow), or is dropped / reset to a default (lossy).  Which of these  *)
-(* happens per field is a CONSTANT: the intended design is "deep for every *)
-(* field"; the design observed on the tree under test is supplied by the   *)
-(* harness.                                                                *)
-(*   Faithful : right after the copy both objects report the same value    *)
-(*              for every field and every derived value                    *)
-(*   Isolated : an edit of one object never changes anything the other     *)
+(* A memoised derived value is itself an OBJECT (a hull mesh, a bounding   *)
+(* primitive, a spatial index, a list): it has an identity, it can be      *)
+(* edited by whoever obtained it, and it may keep a live view of the cell  *)
+(* it was computed from.                                                   *)
+(* Copy(src) creates the next object: for every field the copy either      *)
+(* gets a new cell with equal content (deep), shares the source's cell     *)
+(* (shallow), or is dropped / reset to a default (lossy); a memo that is   *)
+(* handed over holds either private copies of the derived objects or the   *)
+(* very same objects.  Which of these happens is a CONSTANT: the intended  *)
+(* design is "deep for every field, private derived objects"; deviations   *)
+(* are switched on by the harness to show that each is detectable.         *)
+(* Copies can be copied again (a -> b -> c, or a -> b and a -> c).         *)
+(*   Faithful : right after a copy the new object and its source report    *)
+(*              the same value for every field and every derived value     *)
+(*   Isolated : an edit of one object - of a field or of a derived object  *)
+(*              it handed out - never changes anything another object      *)
 (*              reports, now or later, whatever had been read before       *)
 (***************************************************************************)
-EXTENDS Integers, Sequences, FiniteSets, TLC, Json
+EXTENDS Integers, Sequences, FiniteSets, TLC, Json, SequencesExt
 
-CONSTANTS Fields,        \* field names (strings)
+CONSTANTS Objs,          \* object names, a subset of {"a","b","c"}; "a" exists initially
+          Fields,        \* field names (strings)
           Shared,        \* SUBSET Fields: fields whose cell the copy shares with the original
           Dropped,       \* SUBSET Fields: fields the copy does not carry over
           AdoptsUnverifiedCache,  \* TRUE: copy takes the source's memo without checking it is current
+          SharesDerived,          \* TRUE: a memo handed over holds the same derived objects (not copies)
+          DerivedViewsSource,     \* TRUE: a derived object reads the cell it was computed from when queried
+          DerivedEdits,           \* TRUE: histories include edits of derived objects
           MaxDepth
 
 VARIABLES cell,     \* [Objs -> [Fields -> CellId]]
           content,  \* [CellId -> Nat]
           memo,     \* [Objs -> [Fields -> Int]]: content the derived value of that field was computed from, -1 none
+          dobj,     \* [Objs -> [Fields -> Nat]]: identity of the derived object held in the memo, 0 none
+          dedits,   \* Seq(Nat): per derived object, how many times it was edited
+          dsrc,     \* Seq(CellId): per derived object, the cell it was computed from
           alive, seen, hist
 
-vars == <<cell, content, memo, alive, seen, hist>>
-Objs == {"a", "b"}
+vars == <<cell, content, memo, dobj, dedits, dsrc, alive, seen, hist>>
 Cells == (Objs \X Fields)
-Other(x) == IF x = "a" THEN "b" ELSE "a"
+Rank(x) == IF x = "a" THEN 1 ELSE IF x = "b" THEN 2 ELSE 3
+Fresh == CHOOSE x \in Objs \ alive : \A y \in Objs \ alive : Rank(x) <= Rank(y)
+FS == SetToSeq(Fields)
+Idx(f) == CHOOSE i \in 1..Len(FS) : FS[i] = f
 Log(r) == hist' = Append(hist, r)
 
-\* what an object reports: stored fields and derived values (recomputed when the memo is not current)
+\* what an object reports: stored fields ...
 Report(x) == [f \in Fields |-> content[cell[x][f]]]
-Derived(x) == [f \in Fields |-> IF memo[x][f] # -1 THEN memo[x][f] ELSE content[cell[x][f]]]
+\* ... and derived values: the memoised object if the memo is current (the cache is keyed by a
+\* hash of the data, so a memo that is not current is never served), else a fresh computation
+Valid(x, f) == dobj[x][f] # 0 /\ memo[x][f] = content[cell[x][f]]
+DReport(x) == [f \in Fields |->
+                 IF Valid(x, f)
+                 THEN [base |-> IF DerivedViewsSource THEN content[dsrc[dobj[x][f]]] ELSE memo[x][f],
+                       edits |-> dedits[dobj[x][f]]]
+                 ELSE [base |-> content[cell[x][f]], edits |-> 0]]
 
 Init == /\ cell = [x \in Objs |-> [f \in Fields |-> <<x, f>>]]
         /\ content = [c \in Cells |-> 0]
         /\ memo = [x \in Objs |-> [f \in Fields |-> -1]]
+        /\ dobj = [x \in Objs |-> [f \in Fields |-> 0]]
+        /\ dedits = <<>>
+        /\ dsrc = <<>>
         /\ alive = {"a"}
         /\ seen = <<>>
         /\ hist = <<>>
@@ -49,7 +75,12 @@ Init == /\ cell = [x \in Objs |-> [f \in Fields |-> <<x, f>>]]
 \* read a derived value: verify the memo against the current content first (hash-keyed cache)
 ReadDerived(x, f) ==
     /\ x \in alive
-    /\ memo' = [memo EXCEPT ![x][f] = content[cell[x][f]]]
+    /\ IF Valid(x, f)
+       THEN UNCHANGED <<memo, dobj, dedits, dsrc>>
+       ELSE /\ memo' = [memo EXCEPT ![x][f] = content[cell[x][f]]]
+            /\ dobj' = [dobj EXCEPT ![x][f] = Len(dedits) + 1]
+            /\ dedits' = Append(dedits, 0)
+            /\ dsrc' = Append(dsrc, cell[x][f])
     /\ seen' = [x |-> x, f |-> f, got |-> content[cell[x][f]]]
     /\ UNCHANGED <<cell, content, alive>>
     /\ Log([op |-> "read", x |-> x, f |-> f])
@@ -60,52 +91,90 @@ Edit(x, f) ==
     /\ content' = [content EXCEPT ![cell[x][f]] = @ + 1]
     \* the owner's memo for this field is invalidated by its hash; a sharer's memo is NOT
     /\ memo' = [memo EXCEPT ![x][f] = -1]
+    /\ dobj' = [dobj EXCEPT ![x][f] = 0]
     /\ seen' = <<>>
-    /\ UNCHANGED <<cell, alive>>
+    /\ UNCHANGED <<cell, alive, dedits, dsrc>>
     /\ Log([op |-> "edit", x |-> x, f |-> f])
 
 \* an in-place edit that the source's memo has not noticed yet, followed by nothing: the state in
-\* which copying the memo over is dangerous
-EditUnnoticed(f) ==
-    /\ "b" \notin alive
-    /\ memo["a"][f] # -1
-    /\ content' = [content EXCEPT ![cell["a"][f]] = @ + 1]
-    /\ UNCHANGED <<cell, memo, alive>>      \* memo stays (it is only dropped at the next verify)
+\* which copying the memo over is dangerous (only while a copy can still be made)
+EditUnnoticed(x, f) ==
+    /\ x \in alive
+    /\ alive # Objs
+    /\ \A y \in alive : Rank(y) <= Rank(x)     \* the youngest object: the one without copies yet
+    /\ memo[x][f] # -1
+    /\ content' = [content EXCEPT ![cell[x][f]] = @ + 1]
+    /\ UNCHANGED <<cell, memo, dobj, dedits, dsrc, alive>>   \* memo stays (it is only dropped at the next verify)
     /\ seen' = <<>>
-    /\ Log([op |-> "edit_unnoticed", x |-> "a", f |-> f])
+    /\ Log([op |-> "edit_unnoticed", x |-> x, f |-> f])
 
-Copy ==
-    /\ "b" \notin alive
-    /\ alive' = {"a", "b"}
-    /\ cell' = [cell EXCEPT !["b"] = [f \in Fields |-> IF f \in Shared THEN cell["a"][f] ELSE <<"b", f>>]]
-    /\ content' = [c \in Cells |->
-                     IF c[1] = "b" /\ c[2] \notin Dropped THEN content[cell["a"][c[2]]]
-                     ELSE IF c[1] = "b" THEN 0 ELSE content[c]]
-    /\ memo' = [memo EXCEPT !["b"] = [f \in Fields |->
-                     IF AdoptsUnverifiedCache THEN memo["a"][f]
-                     ELSE IF memo["a"][f] = content[cell["a"][f]] THEN memo["a"][f] ELSE -1]]
+\* edit of a derived object obtained from x (x.hull.vertices[0] += 1): only what x was served can be edited
+EditDerived(x, f) ==
+    /\ DerivedEdits
+    /\ x \in alive
+    /\ Valid(x, f)
+    /\ dedits' = [dedits EXCEPT ![dobj[x][f]] = @ + 1]
     /\ seen' = <<>>
-    /\ Log([op |-> "copy"])
+    /\ UNCHANGED <<cell, content, memo, dobj, dsrc, alive>>
+    /\ Log([op |-> "edit_derived", x |-> x, f |-> f])
+
+Keeps(src, f) == /\ memo[src][f] # -1
+                 /\ (AdoptsUnverifiedCache \/ memo[src][f] = content[cell[src][f]])
+
+Copy(src) ==
+    /\ src \in alive
+    /\ alive # Objs
+    /\ LET dst == Fresh
+           n == Len(dedits)
+           newcell == [f \in Fields |-> IF f \in Shared THEN cell[src][f] ELSE <<dst, f>>]
+       IN
+       /\ alive' = alive \cup {dst}
+       /\ cell' = [cell EXCEPT ![dst] = newcell]
+       /\ content' = [c \in Cells |->
+                        IF c[1] = dst /\ c[2] \notin Dropped THEN content[cell[src][c[2]]]
+                        ELSE IF c[1] = dst THEN 0 ELSE content[c]]
+       /\ memo' = [memo EXCEPT ![dst] = [f \in Fields |-> IF Keeps(src, f) THEN memo[src][f] ELSE -1]]
+       /\ dobj' = [dobj EXCEPT ![dst] = [f \in Fields |->
+                        IF Keeps(src, f) /\ dobj[src][f] # 0
+                        THEN (IF SharesDerived THEN dobj[src][f] ELSE n + Idx(f))
+                        ELSE 0]]
+       \* private copies of the derived objects (allocated for every field, unused ones stay unreferenced)
+       /\ dedits' = dedits \o [i \in 1..Len(FS) |->
+                        IF dobj[src][FS[i]] # 0 THEN dedits[dobj[src][FS[i]]] ELSE 0]
+       /\ dsrc' = dsrc \o [i \in 1..Len(FS) |-> newcell[FS[i]]]
+       /\ seen' = <<>>
+       /\ Log([op |-> "copy", src |-> src, dst |-> dst])
 
 Next == /\ Len(hist) < MaxDepth
-        /\ \/ \E x \in Objs, f \in Fields : ReadDerived(x, f) \/ Edit(x, f)
-           \/ \E f \in Fields : EditUnnoticed(f)
-           \/ Copy
+        /\ \/ \E x \in Objs, f \in Fields : ReadDerived(x, f) \/ Edit(x, f) \/ EditUnnoticed(x, f) \/ EditDerived(x, f)
+           \/ \E x \in Objs : Copy(x)
 
 Spec == Init /\ [][Next]_vars
 
 \* ------------------------------------------------------------- properties
-Faithful == (alive = Objs /\ Len(hist) > 0 /\ hist[Len(hist)].op = "copy") =>
-               /\ Report("b") = Report("a")
-               /\ \A f \in Fields : (memo["b"][f] # -1 => memo["b"][f] = content[cell["b"][f]])
+LastOp == hist[Len(hist)]
+\* the stored fields agree, every memo handed over is current, and every derived value the new
+\* object reports is a value of its own data
+Faithful == (Len(hist) > 0 /\ LastOp.op = "copy") =>
+               /\ Report(LastOp.dst) = Report(LastOp.src)
+               /\ \A f \in Fields : (memo[LastOp.dst][f] # -1 => memo[LastOp.dst][f] = content[cell[LastOp.dst][f]])
+               /\ \A f \in Fields : DReport(LastOp.dst)[f].base = content[cell[LastOp.dst][f]]
 Isolated == [][\A x \in Objs, f \in Fields :
-                 (alive = Objs /\ Edit(x, f)) => Report(Other(x))' = Report(Other(x))]_vars
+                 (Edit(x, f) \/ EditUnnoticed(x, f) \/ EditDerived(x, f)) =>
+                     \A o \in alive \ {x} : Report(o)' = Report(o) /\ DReport(o)' = DReport(o)]_vars
 
 EmitLeaf == (Len(hist) = MaxDepth) => PrintT(ToJson(hist))
-View == <<cell, [c \in Cells |-> content[c]], memo, alive>>
+\* derived objects are compared up to their identity: what matters is what each slot holds and which slots hold
+\* the same object (unreferenced derived objects are garbage)
+View == <<cell, [c \in Cells |-> content[c]], memo, alive,
+          [s \in Cells |-> IF dobj[s[1]][s[2]] = 0 THEN <<>> ELSE <<dedits[dobj[s[1]][s[2]]], dsrc[dobj[s[1]][s[2]]]>>],
+          {p \in Cells \X Cells : dobj[p[1][1]][p[1][2]] # 0 /\ dobj[p[1][1]][p[1][2]] = dobj[p[2][1]][p[2][2]]}>>
 
 F3 == {"geom", "meta", "param"}
 F2 == {"geom", "meta"}
+F1 == {"geom"}
+Objs2 == {"a", "b"}
+Objs3 == {"a", "b", "c"}
 None0 == {}
 ShMeta == {"meta"}
 DrParam == {"param"}
